@@ -14,7 +14,7 @@ RULE = ("Hypothesis generates an ordinary concurrent program on one of three sce
         "suspended thread was inside an operation on the same structure (or inside synchronize_rcu for the read-side family) and the solo thread completed at "
         "least one operation. distinct = distinct case text.")
 ASSUMPTIONS = G.E1_ASSUMPTIONS + ["step bounds are generous constants for the generated structure sizes (<=15 items, <=64 nodes, <=512 buckets); exceeding them is reported as unbounded waiting",
-                                  "lock-free operations are run without interference only (solo run), which is what lock-freedom promises", "bounded: <=4 suspended threads, freeze step <= 400"]
+                                  "lock-free operations are run without interference only (solo run), which is what lock-freedom promises", "bounded: <=4 suspended threads, freeze step <= 400 (<= 1300 for the count-driven lazy-shrink programs)"]
 EXAMPLES = {"quick": 250, "thorough": 5000}
 CDS_FLAGS = {1: "wouldblock_returned", 8: "solo_op_completed", 9: "suspended_thread_mid_operation"}
 LFHT_FLAGS = {9: "suspended_thread_mid_operation", 10: "suspended_mid_resize", 5: "lazy_resize"}
@@ -23,6 +23,7 @@ GP_FLAGS = {7: "suspended_inside_synchronize_rcu"}
 
 def example(draw, tier):
     fam = draw(st.sampled_from(["cds", "cds", "lfht", "lfht", "gp"]))
+    frange = (5, 400)
     if fam == "cds":
         kind = draw(st.sampled_from(["wfcq", "wfcq", "wfs", "wfs", "lfs", "rculfs", "lfq"]))
         prog, nops, sync, solo = gen.cds_solo_program(draw, tier, kind)
@@ -31,7 +32,10 @@ def example(draw, tier):
         nd = 1 if sync == 2 else 0
     elif fam == "lfht":
         flavor = draw(st.sampled_from(["memb", "mb", "qsbr", "bp"]))
-        prog, nops = gen.lfht_program(draw, tier, draw(st.sampled_from(["lin", "resize", "owner"])), flavor, solo=True)
+        focus = draw(st.sampled_from(["lin", "resize", "owner", "shrink"]))
+        prog, nops = gen.lfht_program(draw, tier, focus, flavor, solo=True)
+        if focus == "shrink":
+            frange = (300, 1300)   # the pre-population alone takes ~350 steps; the interesting states (first lazy shrink requested, worker behind) come later
         solo = len(nops) - 1
         head = ["scen lfht_" + flavor, "cfg membarrier 1"]
         nd = 3
@@ -43,7 +47,7 @@ def example(draw, tier):
     out = []
     for _ in range(gen.BATCH):
         sched = gen.schedule_lines(draw, tier, len(nops), nops, ndaemons=nd)
-        f = draw(st.integers(5, 400))
+        f = draw(st.integers(*frange))
         out.append("\n".join(head + prog + sched + ["freeze %d %d" % (f, solo)]) + "\n")
     return out
 
